@@ -875,7 +875,7 @@ func (g *Gen) MutateWPlus(b *Bundle) WPlusInfo {
 			used[fmt.Sprint(pick)] = true
 			holders = [][]string{pick}
 		}
-		switch k := g.r.Intn(12); k {
+		switch k := g.r.Intn(13); k {
 		case 0, 1: // pointer to an arbitrary schema position (operations, nested inline schemas)
 			pos := schemaPositions(root)
 			if len(holders) == 0 || len(pos) == 0 {
@@ -1027,6 +1027,39 @@ func (g *Gen) MutateWPlus(b *Bundle) WPlusInfo {
 			root.Get(holders[0]).At["$ref"] = []string{remote[0], "definitions", ph}
 			info.Unresolvable = true
 			info.Kinds = append(info.Kinds, "dangling-case-variant-of-imported")
+		case 12: // arbitrary name collision: the root owns a definition named like an imported one that is NOT $ref-free (possibly recursive)
+			if len(holders) == 0 || root.Ch["definitions"] == nil {
+				continue
+			}
+			for _, id := range sortedKeys(b.Docs) {
+				if id == "root" {
+					continue
+				}
+				d := b.Docs[id].Ch["definitions"]
+				if d == nil || len(d.Ch) == 0 {
+					continue
+				}
+				names := sortedKeys(d.Ch)
+				dn := names[g.r.Intn(len(names))]
+				if _, taken := root.Ch["definitions"].Ch[dn]; taken {
+					continue
+				}
+				if g.r.Intn(2) == 0 {
+					// make the imported definition recursive: through a property, or as a map of itself
+					if g.r.Intn(2) == 0 && d.Ch[dn].Ch["properties"] != nil {
+						d.Ch[dn].Ch["properties"].Ch["again"] = refNode(id, "definitions", dn)
+					} else {
+						m := leaf("object")
+						m.Ch["additionalProperties"] = refNode(id, "definitions", dn)
+						d.Ch[dn] = m
+					}
+				}
+				root.Ch["definitions"].Ch[dn] = leaf("integer")
+				g.defs["root"] = append(g.defs["root"], dn)
+				root.Get(holders[0]).At["$ref"] = []string{id, "definitions", dn}
+				info.Kinds = append(info.Kinds, "arbitrary-collision")
+				break
+			}
 		case 11: // an imported definition refers back to a definition of the root that does not exist (back reference + dangling)
 			if len(holders) == 0 {
 				continue
